@@ -99,6 +99,9 @@ func quoteNames(x string) string {
 func c02test(vs []gen.Variant) (kind, what, detail, printed string) {
 	var y0 string
 	for _, sp := range c02spellings {
+		if sp.name == "reversed-top-level-order" && len(vs) == 1 && vs[0].Solo {
+			continue // reordering definitions of unnamed @N values renumbers them: not a respelling
+		}
 		x := sp.f(vs)
 		m1, errs, pan := parseTry(x)
 		if pan != "" {
